@@ -22,7 +22,7 @@ RULE = ('each run = generated tree + prior Manifest state (absent/exact/stale si
         'least one update succeeded on a prior state that was not already exact; distinct = distinct seam '
         'event-log digest')
 PLAN = {'quick': {'n': 8000, 'budget_s': 90, 'block': 30},
-        'thorough': {'n': 80000, 'budget_s': 1200, 'block': 150}}
+        'thorough': {'n': 400000, 'budget_s': 2400, 'block': 150}}
 ASSUMPTIONS = ['an update that raises makes the premise "completes without error" false; such runs are judged by C10/C18 only',
                'M-audit (sim/model.py) is the reading of "describes the directory exactly"']
 
